@@ -615,6 +615,13 @@ func calculateHashes(numLeaves uint64, delHashes []Hash, proof Proof) (hashAndPo
 			// the next proof hash to calculate the parent.
 			sibHash = proof.Proof[proofHashIdx]
 			proofHashIdx++
+
+			// An empty hash is never a valid proof hash. Accepting it would
+			// move the current hash up to the parent without hashing.
+			if sibHash == empty {
+				return hashAndPos{}, nil, fmt.Errorf("invalid proof. Proof hash at index %d is empty",
+					proofHashIdx-1)
+			}
 		}
 
 		// Calculate the next hash.
